@@ -15,13 +15,16 @@ import flow
 import zoo
 
 
-def tree_oracle(name, est, rep):
+def tree_oracle(name, est, rep, top=None):
     fails = []
 
     def f(what, sig):
         fails.append({"signature": f"{name}/{sig}", "text": f"{name}: {what}", "replay": rep})
     D = np.asarray(est.labels_deep_)
     n, L = D.shape
+    # supervised: the top column is the sequence of targets that was presented (whatever the caller did to its arrays since)
+    if top is not None and [int(v) for v in D[:, 0]] != [int(v) for v in top]:
+        f(f"top column of labels_deep_ {[int(v) for v in D[:, 0]][:12]}.. is not the presented targets {[int(v) for v in top][:12]}..", "top-column")
     # columns = each layer's own labels
     for j, layer in enumerate(est.layers):
         if list(D[:, j]) != list(layer.labels_):
@@ -157,20 +160,29 @@ def any_module_oracle(rng, n):
         rep["batches"] = [len(q) for q in parts]
         rep["how"] = "fit" if nb == 1 else "partial_fit per batch"
         ok = True
+        rep["caller"] = "the batch arrays handed to the call are overwritten by the caller afterwards (a re-used buffer)"
+        shown = []
         for bi, ix in enumerate(parts):
             Xb = X[ix]
+            yb = None if y is None else y[ix]
             arg = Xb if which == "SMART" else [Xb] * nl
+            if yb is not None:
+                shown.extend(int(v) for v in yb)
             try:
                 with np.errstate(all="ignore"):
                     op = est.fit if nb == 1 else est.partial_fit
                     if which == "SMART":
                         op(arg, match_tracking=mode, epsilon=eps)
                     else:
-                        op(arg, None if y is None else y[ix], match_tracking=mode, epsilon=eps)
+                        op(arg, yb, match_tracking=mode, epsilon=eps)
             except Exception:
                 ok = False        # totality is C04's business
                 break
-            fails.extend(tree_oracle(which, est, dict(rep, after_batch=bi)))
+            # the caller re-uses its buffers: the hierarchy is the model's own state and must not move with them
+            Xb[:] = Xb[::-1].copy()
+            if yb is not None:
+                yb[:] = np.resize(np.unique(y)[::-1], len(yb))
+            fails.extend(tree_oracle(which, est, dict(rep, after_batch=bi), top=shown if y is not None else None))
         if ok:
             cnt += 1
             stats[kind] = stats.get(kind, 0) + 1
